@@ -33,6 +33,7 @@ def rules(ctx):
     fr.r_symmetry(ctx)
     fr.r_relink(ctx)
     fr.r_push_sorted(ctx)
+    fr.r_batch_sets(ctx)
     fr.r_merge(ctx)
     fr.r_partition(ctx)
     fr.r_fresh(ctx)
